@@ -12,7 +12,7 @@ def write_if_changed(path, content):
         return True
     return False
 
-TRANSLATORS = []
+TRANSLATORS = ['walkerdb']
 
 def main(repo, outdir):
     res = {}
